@@ -13,8 +13,10 @@
 //
 // item  = <label>~<endEol>~<line>|<line>|...      line = <hexkey>.<hexpad>.<hexval>.<l|c>     eol l = LF, c = CRLF
 // label = ep (the endpoint event) | c (no payload) | r<k>.ok / r<k>.er (response to the client's call k, call 0 =
-//         initialize) | f<idtok> (response with an id the client never used) | q<idtok>.<ping|roots|sample|unk>
-//         (server->client request) | n<n> (notification n) | j (payload that is not JSON-RPC)
+//
+//	initialize) | f<idtok> (response with an id the client never used) | q<idtok>.<ping|roots|sample|unk>
+//	(server->client request) | n<n> (notification n) | j (payload that is not JSON-RPC)
+//
 // idtok = i<decimal> | s<hex>
 //
 // The label names the payload in the event's data; whether the event IS a message is decided by its type
@@ -182,7 +184,7 @@ func (s *scScenario) op() string {
 		}
 		pst = strings.Join(l, ",")
 	}
-	return fmt.Sprintf("scn base=%s get=%s term=%s ok2xx=%d pst=%s stream=%s", hxs(s.base), s.get, s.term, s.ok2xx, pst, st)
+	return fmt.Sprintf("scn base=%s get=%s term=%s ok2xx=%d pst=%s stream=%s full=x%s", hxs(s.base), s.get, s.term, s.ok2xx, pst, st, hx(s.full()))
 }
 
 func scParseScenario(line string) (*scScenario, error) {
@@ -326,7 +328,7 @@ func scPayload(label string) string {
 		k, _ := strconv.Atoi(ks)
 		id := k + 1
 		if kind == "er" {
-			return fmt.Sprintf(`{"jsonrpc":"2.0","id":%d,"error":{"code":%d,"message":"e%d"}}`, id, -32000-k, k)
+			return fmt.Sprintf(`{"jsonrpc":"2.0","id":%d,"error":{"code":%d,"message":"e%d"}}`, id, -31000-k, k)
 		}
 		if k == 0 {
 			return fmt.Sprintf(`{"jsonrpc":"2.0","id":%d,"result":{"protocolVersion":"2024-11-05","capabilities":{"tools":{},"logging":{}},"serverInfo":{"name":"foreign","version":"0.1"}}}`, id)
@@ -524,6 +526,7 @@ func (sv *scServer) RoundTrip(req *http.Request) (*http.Response, error) {
 	switch req.Method {
 	case http.MethodGet:
 		tok := "get"
+		status := 200
 		if req.Header.Get("Accept") != "text/event-stream" {
 			tok = "get:accept=" + hxs(req.Header.Get("Accept"))
 		}
@@ -536,7 +539,10 @@ func (sv *scServer) RoundTrip(req *http.Request) (*http.Response, error) {
 			return nil, errors.New("verif: dial failed")
 		case strings.HasPrefix(sv.s.get, "st"):
 			n, _ := strconv.Atoi(sv.s.get[2:])
-			return sv.resp(req, n, "text/plain", "no"), nil
+			if n < 200 || n >= 300 {
+				return sv.resp(req, n, "text/plain", "no"), nil
+			}
+			status = n // a 2xx greeting carries the stream
 		}
 		sv.mu.Lock()
 		if sv.body != nil {
@@ -547,7 +553,7 @@ func (sv *scServer) RoundTrip(req *http.Request) (*http.Response, error) {
 		sv.body = newScBody(req.Context())
 		b := sv.body
 		sv.mu.Unlock()
-		r := sv.resp(req, 200, "text/event-stream", "")
+		r := sv.resp(req, status, "text/event-stream", "")
 		r.Body = b
 		return r, nil
 	case http.MethodPost:
@@ -923,9 +929,15 @@ func scEmit(out *verifOut, cs string, s *scScenario, recs []scRec, extra ...stri
 
 const scBase = "http://verif.invalid/sse"
 
+var scBases = []string{scBase, "http://verif.invalid:8080/a/b/sse?x=1", "https://verif.invalid/deep/er/sse"}
+
+// endpoint references: absolute path, relative path, absolute URL (same origin), query only, dot segments,
+// network-path reference, another origin (the transport follows it: see SseClient.endpoint_absolute_is_followed)
+var scEndpoints = []string{"/messages?sessionid=1", "messages/7", "http://verif.invalid/rpc?sid=a%20b&x=1", "?sessionid=9",
+	"/a/../m", "//verif.invalid/m2", "../up/m?x=1", "./here", "http://other.invalid:9/m?x=1", "/m/./n/../o/"}
+
 type scGen struct {
-	rng      *rand.Rand
-	answered map[int]bool
+	rng *rand.Rand
 }
 
 // spell frames a payload as one event.  typ: "" = no event field (the default type), else the event name.
@@ -943,7 +955,7 @@ func (g *scGen) spell(label, typ, data string, fancy bool) scItem {
 	if data != "" {
 		parts := []string{data}
 		if fancy && r.Intn(3) == 0 {
-			// split a JSON text at commas that follow the "jsonrpc":"2.0" member: the pieces joined with LF are the same JSON value
+			// split a JSON text after commas that stand between members: the pieces joined with LF are the same JSON value
 			if i := strings.Index(data, `"2.0",`); i >= 0 {
 				cut := i + len(`"2.0",`)
 				parts = []string{data[:cut], data[cut:]}
@@ -991,20 +1003,6 @@ func (g *scGen) spell(label, typ, data string, fancy bool) scItem {
 	return it
 }
 
-// msgType: how a message event is typed
-func (g *scGen) msgType(style int) string {
-	switch style {
-	case 0:
-		return "message"
-	case 1:
-		return ""
-	}
-	if g.rng.Intn(2) == 0 {
-		return "message"
-	}
-	return ""
-}
-
 func scComment(text string) scItem {
 	return scItem{label: "c", lines: []scLine{{key: "", val: text}}}
 }
@@ -1038,16 +1036,6 @@ type scCase struct {
 	ops []scOp
 }
 
-// feedTo appends a feed op that brings the fed position to `to`.
-func (c *scCase) feedTo(r *rand.Rand, pos *int, to int, mode int) {
-	if to <= *pos {
-		return
-	}
-	n := to - *pos
-	c.ops = append(c.ops, scOp{kind: "feed", n: n, chunks: scChunks(r, n, mode)})
-	*pos = to
-}
-
 func (s *scScenario) offsets() []int {
 	off := []int{0}
 	for _, it := range s.stream {
@@ -1056,104 +1044,189 @@ func (s *scScenario) offsets() []int {
 	return off
 }
 
-// scSession builds the standard exchange: endpoint, initialize, then `n` rounds of traffic, every message
-// event spelled in `style` (0 named, 1 unnamed, 2 mixed), with `noise` in between.
-func (g *scGen) session(style int, fancy bool, noise bool, nCalls int, endpoint string) *scCase {
+// scBuild assembles a case: a stream and the operations, keeping the fed position and the call index.
+type scBuild struct {
+	g      *scGen
+	c      *scCase
+	pos    int
+	nextK  int
+	style  int // message events: 0 named, 1 unnamed, 2 mixed
+	fancy  bool
+	noise  bool
+	nn, nq int
+	open   map[int]bool // calls made and not yet answered by the script
+}
+
+func (g *scGen) build(style int, fancy, noise bool) *scBuild {
 	r := g.rng
 	s := &scScenario{base: scBase, get: "ok", term: []string{"eof", "err"}[r.Intn(2)], ok2xx: []int{200, 202, 204}[r.Intn(3)], pst: map[string]int{}}
-	c := &scCase{s: s}
-	pos := 0
-	mode := func() int { return r.Intn(3) }
-	add := func(it scItem) { s.stream = append(s.stream, it) }
-	flush := func() { c.feedTo(r, &pos, len(s.full()), mode()) }
-	noiseItem := func() {
-		if !noise {
-			return
-		}
-		switch r.Intn(6) {
-		case 0:
-			add(scComment(" keep-alive"))
-		case 1:
-			add(g.spell("j", "ping", "keep-alive 17", fancy))
-		case 2:
-			add(g.spell("c", "ping", "", fancy)) // a typed event without data
-		case 3:
-			add(scItem{label: "c", lines: []scLine{{key: "id", pad: " ", val: "p" + strconv.Itoa(r.Intn(99))}}}) // id only: no data, not dispatched
-		case 4:
-			add(scItem{label: "c", lines: []scLine{{key: "retry", pad: " ", val: "3000"}}})
-		case 5:
-			add(g.spell("n"+strconv.Itoa(900+r.Intn(99)), "log", scPayload("n0"), fancy)) // JSON-RPC inside an event of another type: not a message
+	return &scBuild{g: g, c: &scCase{s: s}, nextK: 1, style: style, fancy: fancy, noise: noise, open: map[int]bool{}}
+}
+
+func (b *scBuild) op(kind string) { b.c.ops = append(b.c.ops, scOp{kind: kind}) }
+func (b *scBuild) add(it scItem)  { b.c.s.stream = append(b.c.s.stream, it) }
+func (b *scBuild) total() int     { return len(b.c.s.full()) }
+func (b *scBuild) fail(id string, status int) {
+	b.c.s.pst[id] = status
+	b.c.s.pstOrd = append(b.c.s.pstOrd, id)
+}
+
+// feedTo feeds up to offset `to` (mode: 0 one read, 1 byte by byte, 2 random reads).
+func (b *scBuild) feedTo(to, mode int) {
+	if to <= b.pos {
+		return
+	}
+	n := to - b.pos
+	b.c.ops = append(b.c.ops, scOp{kind: "feed", n: n, chunks: scChunks(b.g.rng, n, mode)})
+	b.pos = to
+}
+
+func (b *scBuild) flush() { b.feedTo(b.total(), b.g.rng.Intn(3)) }
+
+func (b *scBuild) msgType() string {
+	switch b.style {
+	case 0:
+		return "message"
+	case 1:
+		return ""
+	}
+	if b.g.rng.Intn(2) == 0 {
+		return "message"
+	}
+	return ""
+}
+
+// msg adds a message event carrying the label's payload.
+func (b *scBuild) msg(label string) { b.add(b.g.spell(label, b.msgType(), scPayload(label), b.fancy)) }
+
+func (b *scBuild) call(method string) int {
+	k := b.nextK
+	b.nextK++
+	b.c.ops = append(b.c.ops, scOp{kind: "call", k: k, method: method})
+	b.open[k] = true
+	return k
+}
+
+func (b *scBuild) anyMethod() string { return []string{"ping", "list"}[b.g.rng.Intn(2)] }
+
+func (b *scBuild) request() string {
+	r := b.g.rng
+	b.nq++
+	idt := fmt.Sprintf("i%d", 100+b.nq)
+	switch r.Intn(4) {
+	case 0:
+		idt = "s" + hxs(fmt.Sprintf("srv-%d", b.nq))
+	case 1:
+		idt = fmt.Sprintf("i%d", 9007199254740993+int64(b.nq))
+	}
+	return "q" + idt + "." + []string{"ping", "roots", "sample", "unk"}[r.Intn(4)]
+}
+
+func (b *scBuild) notif() string {
+	b.nn++
+	return fmt.Sprintf("n%d", b.nn)
+}
+
+// noiseItem adds something a legal stream may carry that is not a message.
+func (b *scBuild) noiseItem() {
+	r := b.g.rng
+	switch r.Intn(7) {
+	case 0:
+		b.add(scComment(" keep-alive"))
+	case 1:
+		b.add(b.g.spell("j", "ping", "keep-alive 17", b.fancy))
+	case 2:
+		b.add(b.g.spell("c", "ping", "", b.fancy)) // a typed event without data
+	case 3:
+		b.add(scItem{label: "c", lines: []scLine{{key: "id", pad: " ", val: "p" + strconv.Itoa(r.Intn(99))}}}) // id only: no data, not dispatched
+	case 4:
+		b.add(scItem{label: "c", lines: []scLine{{key: "retry", pad: " ", val: "3000"}}})
+	case 5:
+		lb := "n" + strconv.Itoa(900+r.Intn(99))
+		b.add(b.g.spell(lb, "log", scPayload(lb), b.fancy)) // JSON-RPC inside an event of another type: not a message
+	case 6:
+		b.add(b.g.spell("c", "endpoint", "/elsewhere", b.fancy)) // a repeated endpoint event
+	}
+}
+
+// greet: connect, the endpoint event (in a read of its own), the initialize exchange.
+func (b *scBuild) greet(endpoint string) {
+	b.op("connect")
+	if b.noise && b.g.rng.Intn(2) == 0 {
+		b.add(scComment(" hello"))
+		if b.g.rng.Intn(2) == 0 {
+			b.flush()
 		}
 	}
-	c.ops = append(c.ops, scOp{kind: "connect"})
-	if noise && r.Intn(2) == 0 {
-		add(scComment(" hello"))
-		flush() // comments before the endpoint event, in a read of their own
+	b.add(b.g.spell("ep", "endpoint", endpoint, b.fancy))
+	b.flush()
+	if b.noise {
+		b.noiseItem()
 	}
-	add(g.spell("ep", "endpoint", endpoint, fancy))
-	flush()
-	noiseItem()
-	add(g.spell("r0.ok", g.msgType(style), scPayload("r0.ok"), fancy))
-	flush()
-	nn, nq := 0, 0
-	for k := 1; k <= nCalls; k++ {
-		m := "ping"
-		if r.Intn(2) == 0 {
-			m = "list"
-		}
-		c.ops = append(c.ops, scOp{kind: "call", k: k, method: m})
-		if r.Intn(3) == 0 && k < nCalls {
+	b.msg("r0.ok")
+	b.flush()
+}
+
+// traffic: n calls; the server answers outstanding calls in any order and interleaves its own requests and notifications.
+func (b *scBuild) traffic(n int) {
+	r := b.g.rng
+	for i := 0; i < n; i++ {
+		b.call(b.anyMethod())
+		if r.Intn(3) == 0 && i+1 < n {
 			continue // answer later: several calls outstanding
 		}
-		// what the server writes now: responses to outstanding calls (any order), its own requests, notifications
-		var batch []scItem
-		for j := 1; j <= k; j++ {
-			if g.answered[j] {
-				continue
-			}
-			if r.Intn(4) != 0 || k == nCalls {
+		var batch []string
+		for k := 1; k < b.nextK; k++ {
+			if b.open[k] && (r.Intn(4) != 0 || i+1 == n) {
 				kind := ".ok"
 				if r.Intn(5) == 0 {
 					kind = ".er"
 				}
-				lb := fmt.Sprintf("r%d%s", j, kind)
-				batch = append(batch, g.spell(lb, g.msgType(style), scPayload(lb), fancy))
-				g.answered[j] = true
+				batch = append(batch, fmt.Sprintf("r%d%s", k, kind))
+				delete(b.open, k)
 			}
 		}
 		for r.Intn(3) == 0 {
-			nn++
-			lb := fmt.Sprintf("n%d", nn)
-			batch = append(batch, g.spell(lb, g.msgType(style), scPayload(lb), fancy))
+			batch = append(batch, b.notif())
 		}
 		for r.Intn(3) == 0 {
-			nq++
-			idt := fmt.Sprintf("i%d", 100+nq)
-			switch r.Intn(4) {
-			case 0:
-				idt = "s" + hxs(fmt.Sprintf("srv-%d", nq))
-			case 1:
-				idt = fmt.Sprintf("i%d", 9007199254740993+int64(nq))
-			}
-			lb := "q" + idt + "." + []string{"ping", "roots", "sample", "unk"}[r.Intn(4)]
-			batch = append(batch, g.spell(lb, g.msgType(style), scPayload(lb), fancy))
+			batch = append(batch, b.request())
 		}
-		r.Shuffle(len(batch), func(i, j int) { batch[i], batch[j] = batch[j], batch[i] })
-		for _, it := range batch {
-			add(it)
-			if r.Intn(3) == 0 {
-				noiseItem()
+		// notifications keep their order (C03); everything else is shuffled around them
+		r.Shuffle(len(batch), func(i, j int) {
+			if strings.HasPrefix(batch[i], "n") || strings.HasPrefix(batch[j], "n") {
+				return
+			}
+			batch[i], batch[j] = batch[j], batch[i]
+		})
+		for _, lb := range batch {
+			b.msg(lb)
+			if b.noise && r.Intn(3) == 0 {
+				b.noiseItem()
 			}
 			if r.Intn(2) == 0 {
-				flush()
+				b.flush()
 			}
 		}
-		flush()
+		b.flush()
 	}
-	return c
 }
 
-func (g *scGen) reset() { g.answered = map[int]bool{} }
+func (b *scBuild) finish() *scCase {
+	switch b.g.rng.Intn(4) {
+	case 0:
+		b.op("end")
+		b.call("ping")
+	case 1:
+		b.op("close")
+		b.call("ping")
+	case 2:
+		b.call("list")
+		b.op("end")
+	}
+	b.op("fin")
+	return b.c
+}
 
 func scGenerate(emit func(*scCase, string)) {
 	limit := -1
@@ -1170,35 +1243,324 @@ func scGenerate(emit func(*scCase, string)) {
 		count++
 		emit(c, fam)
 	}
-	endpoints := []string{"/messages?sessionid=1", "messages/7", "http://verif.invalid/rpc?sid=a%20b&x=1", "?sessionid=9", "/a/../m", "//verif.invalid/m2"}
-	finish := func(g *scGen, c *scCase) *scCase {
-		switch g.rng.Intn(4) {
-		case 0:
-			c.ops = append(c.ops, scOp{kind: "end"}, scOp{kind: "call", k: 90, method: "ping"})
-		case 1:
-			c.ops = append(c.ops, scOp{kind: "close"}, scOp{kind: "call", k: 90, method: "ping"})
-		case 2:
-			c.ops = append(c.ops, scOp{kind: "call", k: 90, method: "list"}, scOp{kind: "end"})
-		}
-		c.ops = append(c.ops, scOp{kind: "fin"})
-		return c
+	thorough := verifThorough()
+	newGen := func(salt int) *scGen { return &scGen{rng: verifRng(int64(salt))} }
+	random := func(i int) {
+		g := newGen(5000 + i)
+		r := g.rng
+		b := g.build(r.Intn(3), r.Intn(2) == 0, r.Intn(2) == 0)
+		b.c.s.base = scBases[r.Intn(len(scBases))]
+		b.greet(scEndpoints[r.Intn(len(scEndpoints))])
+		b.traffic(1 + r.Intn(4))
+		put(b.finish(), fmt.Sprintf("s%d", b.style))
 	}
-	// family s: every spelling style x plain/fancy x with/without noise, a few calls
-	n := verifN(12, 400)
 	if limit >= 0 {
-		n = limit
+		// $VERIF_CASES (the orchestrator's search for a failing input): that many random sessions only
+		for i := 0; i < limit; i++ {
+			random(700000 + i)
+		}
+		return
 	}
-	for i := 0; count < 1<<30 && i < n; i++ {
+
+	// ---- family s: every spelling style x plain/fancy x with/without noise, a few calls
+	n := verifN(12, 300)
+	for i := 0; i < n; i++ {
 		for style := 0; style < 3; style++ {
 			for _, fancy := range []bool{false, true} {
 				for _, noise := range []bool{false, true} {
-					g := &scGen{rng: verifRng(int64(5000 + i*97 + style*7 + btoi(fancy)*3 + btoi(noise)))}
-					g.reset()
-					c := g.session(style, fancy, noise, 1+g.rng.Intn(4), endpoints[g.rng.Intn(len(endpoints))])
-					put(finish(g, c), fmt.Sprintf("s%d", style))
+					g := newGen(5000 + i*97 + style*7 + btoi(fancy)*3 + btoi(noise))
+					b := g.build(style, fancy, noise)
+					b.c.s.base = scBases[g.rng.Intn(len(scBases))]
+					b.greet(scEndpoints[g.rng.Intn(len(scEndpoints))])
+					b.traffic(1 + g.rng.Intn(4))
+					put(b.finish(), fmt.Sprintf("s%d", style))
 				}
 			}
 		}
+	}
+
+	// ---- family u: every endpoint reference x every base
+	for bi, base := range scBases {
+		for ei, ep := range scEndpoints {
+			g := newGen(6000 + bi*31 + ei)
+			b := g.build(2, false, false)
+			b.c.s.base = base
+			b.greet(ep)
+			b.call("ping")
+			b.msg("r1.ok")
+			b.flush()
+			b.op("fin")
+			put(b.c, "u")
+		}
+	}
+
+	// ---- family x: the traffic after the handshake split into two reads at EVERY byte offset
+	for _, style := range []int{0, 1} {
+		g := newGen(6100 + style)
+		probe := func(cut int) (*scCase, int) {
+			g.rng = verifRng(int64(6100 + style)) // the same spelling for every cut
+			b := g.build(style, true, true)
+			b.c.s.term = "err"
+			b.greet("/m?x=1")
+			b.call("list")
+			b.call("ping")
+			start := b.total()
+			b.msg(b.notif())
+			b.add(b.g.spell("j", "ping", "keep-alive 17", true))
+			b.msg("qi7.ping")
+			b.add(scItem{label: "c", lines: []scLine{{key: "retry", pad: " ", val: "3000", crlf: true}}, endCRLF: true})
+			b.msg("r2.ok")
+			b.msg("qs" + hxs("srv-2") + ".roots")
+			b.msg("r1.ok")
+			b.msg(b.notif())
+			total := b.total()
+			if cut > 0 && start+cut < total {
+				b.feedTo(start+cut, 0)
+			}
+			b.feedTo(total, 0)
+			b.op("fin")
+			return b.c, total - start
+		}
+		_, span := probe(0)
+		stepBy := 1
+		if !thorough {
+			stepBy = 3
+		}
+		for cut := 0; cut < span; cut += stepBy {
+			c, _ := probe(cut)
+			put(c, "x")
+		}
+	}
+
+	// ---- family b: what arrives in the SAME read as the endpoint event (F42): the greeting, a server request and a
+	// notification, split into two reads at every offset
+	{
+		probe := func(cut int, style int) (*scCase, int) {
+			g := newGen(6200 + style)
+			b := g.build(style, false, false)
+			b.op("connect")
+			b.add(scComment(" hello"))
+			b.add(b.g.spell("ep", "endpoint", "/m", false))
+			b.msg("qi7.ping")
+			b.msg("n1")
+			total := b.total()
+			if cut > 0 && cut < total {
+				b.feedTo(cut, 0)
+			}
+			b.feedTo(total, 0)
+			b.msg("r0.ok")
+			b.flush()
+			b.call("ping")
+			b.msg("r1.ok")
+			b.flush()
+			b.op("fin")
+			return b.c, total
+		}
+		for style := 0; style < 2; style++ {
+			_, total := probe(0, style)
+			stepBy := 1
+			if !thorough {
+				stepBy = 2
+			}
+			for cut := 0; cut < total; cut += stepBy {
+				c, _ := probe(cut, style)
+				put(c, "b")
+			}
+		}
+	}
+
+	// ---- family g: greetings that fail
+	{
+		mk := func(i int, get string, items []scItem, end bool) {
+			g := newGen(6300 + i)
+			b := g.build(2, false, false)
+			b.c.s.get = get
+			b.op("connect")
+			for _, it := range items {
+				b.add(it)
+			}
+			b.flush()
+			if end {
+				b.op("end")
+			}
+			b.call("ping")
+			b.op("fin")
+			put(b.c, "g")
+		}
+		g0 := newGen(6299)
+		ep := g0.spell("ep", "endpoint", "/m", false)
+		mk(0, "terr", nil, false)
+		mk(1, "st404", nil, false)
+		mk(2, "st500", nil, true)
+		mk(3, "st401", []scItem{ep}, false)
+		mk(4, "st204", []scItem{ep}, true)                                                 // a 2xx greeting is a greeting
+		mk(5, "ok", []scItem{g0.spell("c", "message", scPayload("n1"), false), ep}, false) // the first event is not the endpoint event
+		mk(6, "ok", []scItem{g0.spell("c", "", "/m", false)}, false)                       // an unnamed first event
+		mk(7, "ok", []scItem{scComment(" only a comment")}, true)                          // the stream ends before any event
+		mk(8, "ok", []scItem{{label: "c", lines: []scLine{{key: "event", pad: " ", val: "endpoint"}}}}, true)
+		mk(9, "ok", nil, true)
+		mk(10, "ok", []scItem{scComment(" hello"), scComment(" again"), ep}, true) // greeted, then the stream ends during initialize
+	}
+
+	// ---- family p: POSTs answered with a failing status
+	{
+		idents := []string{"c0", "ni", "c1", "c2", "ri101.ok", "ri102.e-32601", "c3"}
+		statuses := []int{400, 404, 500, 503, 302, 199}
+		np := verifN(3, 40)
+		for i, id := range idents {
+			for j := 0; j < np; j++ {
+				g := newGen(6400 + i*53 + j)
+				r := g.rng
+				b := g.build(r.Intn(3), r.Intn(2) == 0, false)
+				b.fail(id, statuses[r.Intn(len(statuses))])
+				b.greet("/m")
+				b.call(b.anyMethod()) // 1
+				b.msg("qi101." + []string{"ping", "roots", "sample"}[r.Intn(3)])
+				b.flush()
+				b.call(b.anyMethod()) // 2
+				// a request is the last message of its read: its handler runs beside the reader, so whether a POST
+				// that fails breaks the connection before or after the NEXT message of the same read is a coin flip
+				b.msg("r1.ok")
+				b.msg(b.notif())
+				b.msg("qi102.unk")
+				b.flush()
+				b.msg(b.notif())
+				b.flush()
+				b.call(b.anyMethod()) // 3
+				b.msg("r2.ok")
+				b.msg(b.notif())
+				b.msg("qi103.ping")
+				b.flush()
+				b.msg("r3.ok")
+				b.flush()
+				put(b.finish(), "p")
+			}
+		}
+	}
+
+	// ---- family e: the stream ends anywhere (read error: any offset; clean end: event boundaries and inside the
+	// first line of an event, where the unterminated rest cannot be taken for a message)
+	{
+		ne := verifN(40, 1500)
+		for i := 0; i < ne; i++ {
+			g := newGen(6600 + i)
+			r := g.rng
+			b := g.build(r.Intn(3), r.Intn(2) == 0, r.Intn(2) == 0)
+			b.greet(scEndpoints[r.Intn(4)])
+			b.traffic(1 + r.Intn(3))
+			// cut the script somewhere and end the stream there
+			s := b.c.s
+			off := s.offsets()
+			total := off[len(off)-1]
+			cut := r.Intn(total + 1)
+			if s.term == "eof" {
+				j := r.Intn(len(s.stream) + 1)
+				cut = off[j]
+				if j < len(s.stream) && r.Intn(2) == 0 {
+					l0 := len(s.stream[j].lines[0].bytes())
+					if l0 > 8 {
+						cut += 7 + r.Intn(l0-8)
+					}
+				}
+			}
+			var ops []scOp
+			pos := 0
+			for _, o := range b.c.ops {
+				if o.kind == "feed" {
+					if pos >= cut {
+						continue
+					}
+					if pos+o.n > cut {
+						o.n = cut - pos
+						o.chunks = scChunks(r, o.n, r.Intn(3))
+					}
+					pos += o.n
+				}
+				ops = append(ops, o)
+			}
+			b.c.ops = ops
+			b.op("end")
+			b.call("ping")
+			b.op("fin")
+			put(b.c, "e")
+		}
+	}
+
+	// ---- family c: Close with calls outstanding; what the peer sends while the client is closing
+	{
+		nc := verifN(20, 400)
+		for i := 0; i < nc; i++ {
+			g := newGen(6800 + i)
+			r := g.rng
+			b := g.build(r.Intn(3), r.Intn(2) == 0, r.Intn(2) == 0)
+			b.greet("/m")
+			k1 := b.call(b.anyMethod())
+			k2 := -1
+			if r.Intn(2) == 0 {
+				k2 = b.call(b.anyMethod())
+			}
+			b.op("close")
+			if r.Intn(2) == 0 {
+				b.msg(b.request())
+				b.msg(b.notif())
+				b.flush()
+			}
+			if r.Intn(3) == 0 {
+				b.call("ping")
+			}
+			b.msg(fmt.Sprintf("r%d.ok", k1))
+			b.flush()
+			if k2 > 0 {
+				switch r.Intn(3) {
+				case 0:
+					b.msg(fmt.Sprintf("r%d.er", k2))
+					b.flush()
+				case 1:
+					b.op("end")
+				}
+			}
+			b.msg(b.notif())
+			b.flush()
+			b.call("ping")
+			b.op("fin")
+			put(b.c, "c")
+		}
+	}
+
+	// ---- family d: duplicates, foreign ids, responses before the request, text that is not JSON-RPC
+	{
+		nd := verifN(30, 600)
+		for i := 0; i < nd; i++ {
+			g := newGen(7000 + i)
+			r := g.rng
+			b := g.build(r.Intn(3), r.Intn(2) == 0, r.Intn(2) == 0)
+			b.greet("/m")
+			if r.Intn(3) == 0 {
+				b.msg("r1.ok") // the response arrives before the request was made: an id nobody waits for
+				b.flush()
+			}
+			k := b.call(b.anyMethod())
+			b.msg("fi777")
+			b.msg("fs" + hxs("1"))
+			b.msg(fmt.Sprintf("r%d.ok", k))
+			b.msg(fmt.Sprintf("r%d.er", k)) // a second answer to the same call
+			b.msg("r0.ok")                  // a second answer to initialize
+			b.flush()
+			k2 := b.call(b.anyMethod())
+			if r.Intn(2) == 0 {
+				b.msg("j") // text that is not JSON-RPC in a message event, in a read of its own
+				b.flush()
+			}
+			b.msg(fmt.Sprintf("r%d.ok", k2))
+			b.flush()
+			put(b.finish(), "d")
+		}
+	}
+
+	// ---- family r: random sessions
+	nr := verifN(60, 6000)
+	for i := 0; i < nr; i++ {
+		random(i)
 	}
 }
 
